@@ -170,6 +170,7 @@ class Session:
         self.gens = {}            # handle -> dict(gen, api, key, got, dirty)
         self.results = []         # raw values of earlier parse calls
         self.default_config = True
+        self.config_epoch = 0     # bumped by every reconfiguration op
         self.tracer = LineTracer(PKG)
         self.records = []
         self.stats = {}
@@ -193,6 +194,7 @@ class Session:
         fault = op.get('fault')
         rec = {'api': api, 'key': ref_key(api, inp, opts, enc),
                'default_config': self.default_config,
+               'epoch': self.config_epoch,
                'expect': op.get('expect', 'ref')}
         try:
             obj = materialise(inp)
@@ -355,6 +357,7 @@ class Session:
 
     def _mark_reconf(self):
         self.default_config = False
+        self.config_epoch += 1
         for ent in self.gens.values():
             if ent['state'] == 'open':
                 ent['dirty'] = True
@@ -395,6 +398,7 @@ class Session:
     def op_lex_default_init(self, op):
         self._lexer().default_initialization()
         self.default_config = True
+        self.config_epoch += 1
         self.stat('default_init')
 
     def op_lex_separate(self, op):
